@@ -70,6 +70,9 @@ class Config:
     ddp: bool = True               # driver averages gradients over ranks (a
                                    # synchronising collective per iteration);
                                    # False lets ranks drift apart (C03)
+    in_scale: float = 1.0          # magnitude of the inputs (ill-conditioned
+                                   # factors: what is communicated must not
+                                   # depend on the DATA)
     union: int = 1                 # W=1 run on the union of `union` rank batches
     inmem_ckpt: bool = False       # keep the state_dict as a live in-memory
                                    # object (not serialised / copied) and load
@@ -282,7 +285,7 @@ def make_batch(cfg: Config, seed: int, rank: int, it: int, mb: int,
     bs = cfg.batch + (it + mb) % 3
     x = torch.randn((bs,) + in_shape(cfg.model), generator=g)
     y = torch.randn((bs,) + out_shape(cfg.model), generator=g)
-    return x.to(dtype), y.to(dtype)
+    return (x * cfg.in_scale).to(dtype), y.to(dtype)
 
 
 def loss_fn(out: torch.Tensor, y: torch.Tensor, local_batch: int,
